@@ -181,7 +181,7 @@ M("c02-eager-still-reports", ["C02", "C13"], [(PROC, '''        if result.report
 ''', '''        if result.reporting_done:  # actor has finished gracefully, but no action is required
             self._processed += 1
 ''')], "R-C02-ONCE")
-M("c02-convert-inputs-outside-try", ["C02", "C08"], [(PROC, '''        try:
+M("c02-convert-inputs-outside-try", ["C02"], [(PROC, '''        try:
             unresolved_dependencies: dict[str, Coroutine] = {}
 ''', '''        args, kwargs = actor.converter.convert_inputs(payload)
         try:
